@@ -1,7 +1,7 @@
 """rule bodies shared by several properties (each takes the Rule to report into)"""
 import re
 from .. import api, callgraph
-from ..vflow import Canon, strip_int_casts, strip_ptr_casts, access_path, fields_in_path, const_int, possible_consts
+from ..vflow import Canon, strip_int_casts, strip_ptr_casts, access_path, fields_in_path, const_int, possible_consts, derived_pointers
 from ..guards import Facts, dominating_edges, edge_condition
 from ..cfg import dominators, dominates, reachable_from
 from ..retval import returns_via_edge, all_negative
@@ -125,10 +125,24 @@ def rule_fragment_len(ctx, P, r):
     for fname in ('liberasurecode_decode', 'liberasurecode_reconstruct_fragment'):
         f, pi = param_by_name(ctx, P, fname, 'fragment_len')
         e = f'arg{pi}'
-        cons = [i for i in f.insts() if i.op == 'call' and i.callee in ('@is_invalid_fragment_header', '@get_fragment_partition',
-                                                                         '@fragments_to_string', '@prepare_fragments_for_decode')]
-        if not cons:
+        named = [i for i in f.insts() if i.op == 'call' and i.callee in ('@is_invalid_fragment_header', '@get_fragment_partition',
+                                                                          '@fragments_to_string', '@prepare_fragments_for_decode')]
+        if not named:
             raise AnalysisBroken(f'anchor vanished: no fragment consumer in {fname}')
+        # every use of the caller's fragments counts, whatever it is called: a call that receives the fragment array or one of
+        # its elements, or a load through an element (an error message that prints a header field is a read too)
+        _, ai_ = param_by_name(ctx, P, fname, 'available_fragments')
+        A_arr, _x = derived_pointers(f, [f.params[ai_][1]])
+        elems = [i.res for i in f.insts() if i.op == 'load' and i.ops[0] in A_arr and i.ty == 'i8*']
+        A_el, _y = derived_pointers(f, elems) if elems else (set(), None)
+        cons = list(named)
+        for i in f.insts():
+            if i in cons:
+                continue
+            if i.op == 'call' and not i.callee.startswith('@llvm.dbg') and i.callee not in ('@free',) and any(isinstance(a, str) and (a in A_el or a in A_arr) for a in i.ops):
+                cons.append(i)
+            elif i.op == 'load' and i.ops[0] in A_el:
+                cons.append(i)
         bad = None
         for i in cons:
             F = Facts(P, f, i.bb)
@@ -138,8 +152,9 @@ def rule_fragment_len(ctx, P, r):
         inst = f'{fname}: fragment_len >= sizeof(fragment_header_t) before fragment bytes are read'
         if bad:
             i, lo = bad
-            r.fail(inst, func=f.name, sig=f'fragment_len unchecked before {i.callee}', loc=i.loc,
-                   msg=f'{i.callee} reads fragment headers but no dominating check fragment_len >= {hdr} (bound found: {lo})')
+            what = i.callee if i.op == 'call' else 'a load through a fragment pointer'
+            r.fail(inst, func=f.name, sig=f'fragment_len unchecked before {what}', loc=i.loc,
+                   msg=f'{what} at line {i.line} reads the caller\'s fragments but no dominating check fragment_len >= {hdr} (bound found: {lo}): a shorter buffer is read past its end')
         else:
             r.ok(inst, func=f.name, loc=cons[0].loc, facts={'consumers': len(cons)})
 
@@ -513,6 +528,24 @@ def rule_op_tables(ctx, P, r):
                 r.fail(inst, func=fn.name, sig=f'compares with {(mm.group(1) or mm.group(2))}', loc=rets[0].loc,
                        msg=f'{fn.name} sits in the table of {own} but compares with the version of {(mm.group(1) or mm.group(2))}')
                 ok = None
+        if ok is False and own in IN_SCOPE_BACKENDS:
+            # not the plain equality: decide the predicate as a value function of the version (every in-scope backend accepts
+            # exactly its own version; the siblings agree on that)
+            from ..consteval import ConstEval, Undecidable
+            CEv = ConstEval(P, fn.mod)
+            try:
+                mine = CEv.load(('g', own, (P.field_index('ec_backend_common', 'ec_backend_version'),)), rets[0])
+                if isinstance(mine, int):
+                    acc = [v for v in sorted({0, 1, mine - 1, mine, mine + 1, (mine | 0xff0000) + 1}) if v >= 0 and CEv.run(fn, [v])['ret'] not in (0, None)]
+                    if acc == [mine]:
+                        ok = True
+                    else:
+                        r.fail(inst, func=fn.name, sig=f'accepts versions {acc[:4]}', loc=rets[0].loc,
+                               msg=f'{fn.name} accepts backend versions {acc} while the backend\'s own version is {mine}: fragments written by another version of the '
+                                   'backend validate as good (every other backend accepts exactly its own version)')
+                        ok = None
+            except (Undecidable, AnalysisBroken):
+                pass
         if ok:
             r.ok(inst, func=fn.name, loc=rets[0].loc, facts={'returns': sorted(exprs)})
         elif ok is False:
